@@ -62,6 +62,7 @@ func TestVerifChild_Run(t *testing.T) {
 		}
 	}
 	h := NewWHub(kit.HubOpts{Dir: sc.Dir})
+	_ = os.WriteFile(filepath.Join(sc.Dir, "ready"), []byte("open\n"), 0o644)
 	for k, op := range sc.Ops {
 		mark(k)
 		if err := execOp(h, op); err != nil {
@@ -81,10 +82,19 @@ type childResult struct {
 	acked   int // index of the last acknowledged op, -1 if none
 	out     string
 	timeout bool
+	opsTime time.Duration // from "hub is open" to the end of the child
+	timed   bool          // the parent killed the child after the drawn delay
 }
 
 // runWriterChild executes the script in a child process.
 func runWriterChild(sc crashScript, env []string, timeout time.Duration) childResult {
+	return runWriterChildKill(sc, env, timeout, -1)
+}
+
+// runWriterChildKill: with killAfter >= 0 the parent sends SIGKILL that long
+// after the child reported its hub open (a kill at an arbitrary instant of the
+// op sequence, not at an instrumented boundary).
+func runWriterChildKill(sc crashScript, env []string, timeout time.Duration, killAfter time.Duration) childResult {
 	sp := filepath.Join(sc.Dir, "script.json")
 	b, _ := json.Marshal(sc)
 	if err := os.WriteFile(sp, b, 0o644); err != nil {
@@ -103,7 +113,43 @@ func runWriterChild(sc crashScript, env []string, timeout time.Duration) childRe
 	}
 	done := make(chan error, 1)
 	go func() { done <- cmd.Wait() }()
+	// wait for the "hub is open" marker (or the end of the child)
+	ready := filepath.Join(sc.Dir, "ready")
+	var openAt time.Time
+	var early error
+	exited := false
+	deadline := time.Now().Add(timeout)
+	for openAt.IsZero() && !exited && time.Now().Before(deadline) {
+		if _, err := os.Stat(ready); err == nil {
+			openAt = time.Now()
+			break
+		}
+		select {
+		case early = <-done:
+			exited = true
+		case <-time.After(300 * time.Microsecond):
+		}
+	}
+	if exited {
+		done <- early
+	}
+	var kill <-chan time.Time
+	if killAfter >= 0 && !openAt.IsZero() {
+		kill = time.After(killAfter)
+	}
 	select {
+	case <-kill:
+		_ = cmd.Process.Signal(syscall.SIGKILL)
+		res.timed = true
+		err := <-done
+		if ee, ok := err.(*exec.ExitError); ok {
+			if ws, ok := ee.Sys().(syscall.WaitStatus); ok && ws.Signaled() {
+				res.killed = true
+				res.exit = -int(ws.Signal())
+			} else {
+				res.exit = ee.ExitCode()
+			}
+		}
 	case err := <-done:
 		if err != nil {
 			if ee, ok := err.(*exec.ExitError); ok {
@@ -124,6 +170,9 @@ func runWriterChild(sc crashScript, env []string, timeout time.Duration) childRe
 		res.exit = 3
 	}
 	res.out = sb.String()
+	if !openAt.IsZero() {
+		res.opsTime = time.Since(openAt)
+	}
 	if f, err := os.Open(filepath.Join(sc.Dir, "ack")); err == nil {
 		s := bufio.NewScanner(f)
 		for s.Scan() {
